@@ -2,7 +2,10 @@
 
 package udp
 
-import "net"
+import (
+	"net"
+	"time"
+)
 
 // VerifNewConn returns a listener connection without a socket: its read side (buffer and read
 // deadline) is complete; Write and Close must not be used.
@@ -56,4 +59,18 @@ func VerifBuffered(c net.Conn) int {
 	cc, _ := c.(*Conn)
 
 	return cc.buffer.Count()
+}
+
+// VBatchConnHook, when set, supplies the batch reader/writer of the BatchConn that Listen creates
+// (the instrumented copy of conn.go calls vNewBatchConn): the real NewBatchConn runs, then its
+// platform batch connection is replaced by the in-memory one.
+var VBatchConnHook func() BatchPacketConn
+
+func vNewBatchConn(conn net.PacketConn, batchWriteSize int, batchWriteInterval time.Duration) *BatchConn {
+	bc := NewBatchConn(conn, batchWriteSize, batchWriteInterval)
+	if VBatchConnHook != nil {
+		bc.batchConn = VBatchConnHook()
+	}
+
+	return bc
 }
